@@ -1,5 +1,5 @@
 """C16 — iterators, ranges and hybrid loops visit exactly the intended elements, lawfully (DESIGN.md section 4, C16)."""
-import os, sys, re, json
+import os, sys, re, json, time
 import vcheck as V
 
 META = {
@@ -23,6 +23,7 @@ META = {
 H = os.path.join(V.VERIF, "harness", "C16")
 TYPES = {"i8": (8, True), "u8": (8, False), "i16": (16, True), "u16": (16, False),
          "i32": (32, True), "u32": (32, False), "i64": (64, True), "u64": (64, False)}
+XTYPES = {"ill": (64, True), "ull": (64, False), "ch": (8, True)}     # long long, unsigned long long, char (iterator streams only)
 SIRANGE = {0: ("i32", 0, 0), 1: ("i32", 0, 5), 2: ("i32", -4, 3), 3: ("i32", -6, -2), 4: ("u64", 2, 7), 5: ("i16", 32760, 32767),
            6: ("u8", 250, 255), 7: ("i64", 4, 4), 8: ("u32", 0, 1), 9: ("i8", -128, -120)}
 SWITCHR = {0: (0, 0), 1: (0, 4), 2: (2, 7), 3: (-3, 2), 4: (2, 5)}
@@ -30,11 +31,11 @@ BITN = ["eq", "ne", "lt", "le", "gt", "ge"]
 
 
 def tmin(t):
-    w, s = TYPES[t]; return -(1 << (w - 1)) if s else 0
+    w, s = (TYPES.get(t) or XTYPES[t]); return -(1 << (w - 1)) if s else 0
 
 
 def tmax(t):
-    w, s = TYPES[t]; return (1 << (w - 1)) - 1 if s else (1 << w) - 1
+    w, s = (TYPES.get(t) or XTYPES[t]); return (1 << (w - 1)) - 1 if s else (1 << w) - 1
 
 
 def sext(w, z):
@@ -43,14 +44,14 @@ def sext(w, z):
 
 def ir_diff_overflows(t, a, b):
     """mirror of c16_ir_diff_overflows (coq/C16_Model.v): operator- as written overflows its signed arithmetic type"""
-    w, _ = TYPES[t]
+    w, _ = (TYPES.get(t) or XTYPES[t])
     d = sext(w, a) - sext(w, b)
     return w >= 32 and (d < -(1 << (w - 1)) or d >= (1 << (w - 1)))
 
 
 def ir_froms(t, n, quick):
     lo, hi = tmin(t), tmax(t)
-    w, s = TYPES[t]
+    w, s = (TYPES.get(t) or XTYPES[t])
     c = {lo, lo + 1, hi - n, 5}
     if hi - n - 1 > lo: c.add(hi - n - 1)
     if s: c |= {-3, -n, -1}
@@ -219,6 +220,82 @@ def gen(ctx):
                 cases.append("hyx fun3 %d %d %d" % (a, b, c))
     for _ in range(15 if quick else 200):
         cases.append("hyx fvec %s" % ",".join(str(rng.randrange(-99, 100)) for _ in range(3)))
+    # ---- dimension audit (mutants/C16/API_COVERAGE.md, "Dimension audit")
+    # template-argument families: ArrayList chunk sizes 1 and 8, DynamicMatrix rows, long long / unsigned long long / char ranges, facade with D = int
+    for kind in ("al1:0", "al1:2", "al8:0", "al8:7", "al8:9"):
+        ra(kind, range(0, 6), 0)
+    ra("dmrow", range(0, 5), -1)
+    for t in XTYPES:
+        for n in (0, 3):
+            for f in ir_froms(t, n, quick):
+                ra("ir:%s:%d" % (t, f), [n], -1 if f > tmin(t) else 0, two=False)
+    for n in range(0, 5):
+        for i in range(-1, n + 1):
+            for j in range(-1, n + 1):
+                cases.append("ncmp nfptri %d %d %d" % (n, i, j))
+            for k in range(-1 - i, n - i + 1):
+                cases.append("nstep nfptri %d m %d %d" % (n, i, k))
+    # aliasing and special members on one iterator object
+    for kind, lo in (("dyn", -1), ("gen", -1), ("al:2", 0), ("tr", 0), ("dmrow", -1), ("ir:i32:5", -1), ("nfptri", -1)):
+        for n in range(0, 5):
+            for i in range(lo, n + 1):
+                for j in range(lo, n + 1):
+                    cases.append("self %s %d %d %d" % (kind, n, i, j))
+    for n in range(0, 5):
+        for i in range(0, n + 1):
+            cases.append("self sl %d %d 0" % (n, i))
+    # object histories: one iterator driven through an operation sequence
+    def walk_ops(lo, n, allow_neg_first=True):
+        pos, ops = 0, []
+        for _ in range(rng.randrange(0, 12)):
+            o = rng.choice("+-abcvpmPM")
+            if o in "+a" and pos + 1 <= n: ops.append(o); pos += 1
+            elif o in "-b" and pos - 1 >= lo: ops.append(o); pos -= 1
+            elif o in "cv": ops.append(o)
+            elif o in "pP":
+                k = rng.randrange(lo - pos, n - pos + 1); ops.append("%s%d" % (o, k)); pos += k
+            elif o in "mM":
+                k = rng.randrange(pos - n, pos - lo + 1); ops.append("%s%d" % (o, k)); pos -= k
+        return ",".join(ops) or "-"
+    for kind, lo in (("dyn", -1), ("gen", -1), ("al:2", 0), ("al1:2", 0), ("al8:3", 0), ("tr", 0), ("dmrow", -1), ("ir:i32:-3", -1), ("nfptri", -1)):
+        for _ in range(40 if quick else 500):
+            n = rng.randrange(0, 9)
+            cases.append("walk %s %d %s" % (kind, n, walk_ops(lo, n)))
+    # roles: IndexedIterator over further bases; Hybrid on further run-time ranges; views over further bases, views of views; special members of views
+    for base in ("ir", "al", "tr"):
+        for _ in range(60 if quick else 600):
+            n = rng.randrange(0, 8); pos = 0; ops = []
+            for _ in range(rng.randrange(0, 9)):
+                o = rng.choice("+-abpm")
+                if o in "+a" and pos + 1 <= n: ops.append(o); pos += 1
+                elif o in "-b" and pos - 1 >= 0: ops.append(o); pos -= 1
+                elif o == "p":
+                    k = rng.randrange(-pos, n - pos + 1); ops.append("p%d" % k); pos += k
+                elif o == "m":
+                    k = rng.randrange(pos - n, pos + 1); ops.append("m%d" % k); pos -= k
+            cases.append("idxrun %s %d %d %s" % (base, n, rng.choice([0, 1, -5, 77]), ",".join(ops) or "-"))
+    for kind in ("al", "cal", "sl", "dynv", "view"):
+        cases.append("hyx dyn %s -" % kind)
+        for _ in range(10 if quick else 100):
+            cases.append("hyx dyn %s %s" % (kind, ",".join(map(str, rxs(7))) or "-"))
+    for variant in ("nested", "itrange", "copy", "twice", "cat"):
+        cases.append("trx %s -" % variant)
+        for _ in range(12 if quick else 150):
+            cases.append("trx %s %s" % (variant, ",".join(map(str, rxs())) or "-"))
+    for _ in range(8 if quick else 80):
+        cases.append("trx fvbase %s" % ",".join(str(rng.randrange(-99, 100)) for _ in range(3)))
+    # boundaries: large containers (random pairs / steps), integral ranges as long as the difference type allows
+    for kind, lo in (("dyn", -1), ("gen", -1), ("al:2", 0), ("al8:9", 0), ("tr", 0)):
+        for _ in range(25 if quick else 300):
+            n = rng.choice([63, 64, 65, 100]); i = rng.randrange(lo, n + 1); j = rng.choice([lo, n, i, rng.randrange(lo, n + 1)])
+            cases.append("%s %s %d %d %d" % ("cmp", kind, n, i, j))
+            cases.append("step %s %d %s %d %d" % (kind, n, rng.choice("mc"), i, j - i))
+    for t, f in (("i8", -128), ("u8", 0), ("u8", 128), ("ch", -128), ("i8", 0)):
+        n = 127                      # the longest span the 8-bit difference type can express: positions 0 .. 127
+        for i in (0, 1, 126, 127):
+            for j in (0, 63, 127):
+                cases.append("cmp ir:%s:%d %d %d %d" % (t, f, n, i, j))
+                cases.append("step ir:%s:%d %d m %d %d" % (t, f, n, i, j - i))
     for op in ["plus", "minus", "max", "min", "equal_to"]:
         for a in range(5):
             for b in range(5):
@@ -237,7 +314,7 @@ def toks(line):
 
 def case_class(case):
     t = case.split()
-    if t[0] in ("cmp", "cmpx", "step", "bcmp", "bstep", "ncmp", "nstep", "cont", "prim"):
+    if t[0] in ("cmp", "cmpx", "step", "bcmp", "bstep", "ncmp", "nstep", "cont", "prim", "self", "walk"):
         return t[0], t[1].split(":")[0]
     if t[0] in ("trx", "hyx"):
         return t[0], t[1]
@@ -314,7 +391,8 @@ SIR_T = {"i32": "int", "u64": "std::size_t", "i16": "short", "u8": "unsigned cha
 def groups():
     g = [("iter1", "impl.cc", "c16_iter_case_1", ["-DC16_PART=1"]), ("iter2", "impl.cc", "c16_iter_case_2", ["-DC16_PART=2"]),
          ("iter3", "impl.cc", "c16_iter_case_3", ["-DC16_PART=3"]), ("misc", "impl.cc", "c16_misc_case", ["-DC16_PART=4"]),
-         ("hybrid", "impl.cc", "c16_hy_case", ["-DC16_PART=5"]), ("extra", "impl2.cc", "c16_extra_case", [])]
+         ("hybrid", "impl.cc", "c16_hy_case", ["-DC16_PART=5"]), ("extra", "impl2.cc", "c16_extra_case", []),
+         ("audit", "impl4.cc", "c16_audit_case", [])]
     for i, (t, f, to) in SIRANGE.items():
         g.append(("sir%d" % i, "impl3.cc", "c16_sirange_%d" % i,
                   ["-DC16_SIR_FN=c16_sirange_%d" % i, "-DC16_SIR_T=%s" % SIR_T[t], "-DC16_SIR_TO=(%d)" % to, "-DC16_SIR_FROM=(%d)" % f]))
@@ -332,11 +410,31 @@ def build(ctx, san=True):
     flags = ["-DC16_AL_MIXED"] if mixed else []
     variants = [("impl", dict(opt="-O2"))] + ([("impl_san", dict(san=True))] if san else [])
     failed = {}
+    nhit = []
+
+    cache = ctx.path("objcache"); os.makedirs(cache, exist_ok=True)
+    gxx = V.sh(["g++", "--version"])[1].split("\n")[0]
 
     def one(name, kw, grp, srcf, fn, gflags):
+        # Objects are cached by the hash of the PREPROCESSED translation unit (all headers of ctx.repo included) + compiler + flags:
+        # the same token stream compiled with the same flags yields the same object, so re-use is sound; any edit of an included
+        # header changes the hash of exactly the groups that include it.
+        import hashlib, shutil
         obj = ctx.path("%s.%s.o" % (name, grp))
+        fl = flags + ["-g0", "-c"] + gflags
+        pre = ["g++", "-std=gnu++20", "-w", "-DHAVE_CONFIG_H", "-D_GLIBCXX_USE_FLOAT128", "-I" + os.path.join(V.VERIF, "harness", "common", "include"),
+               "-I" + os.path.join(V.VERIF, "harness", "common"), "-I" + ctx.repo] + (["-D" + ctx.hooks_define] if ctx.hooks_define else []) + flags + gflags
+        rc, txt = V.sh(pre + ["-E", "-P", os.path.join(H, srcf)], timeout=300)
+        key = None
+        if rc == 0:
+            key = hashlib.sha256((gxx + "|" + repr(sorted(kw.items())) + "|" + " ".join(fl) + "|" + txt).encode("utf-8", "replace")).hexdigest()
+            hit = os.path.join(cache, key + ".o")
+            if os.path.exists(hit):
+                shutil.copyfile(hit, obj); nhit.append(grp); return obj
         try:
-            V.cxx(ctx, [os.path.join(H, srcf)], obj, repo_srcs=[], flags=flags + ["-g0", "-c"] + gflags, timeout=600, **kw)
+            V.cxx(ctx, [os.path.join(H, srcf)], obj, repo_srcs=[], flags=fl, timeout=600, **kw)
+            if key:
+                shutil.copyfile(obj, os.path.join(cache, key + ".o.tmp")); os.replace(os.path.join(cache, key + ".o.tmp"), os.path.join(cache, key + ".o"))
         except V.BuildError as e:
             failed.setdefault(grp, str(e))
             V.cxx(ctx, [os.path.join(H, "stub.cc")], obj, repo_srcs=[], flags=["-g0", "-c", "-DC16_STUB_FN=%s" % fn], **kw)
@@ -355,6 +453,15 @@ def build(ctx, san=True):
         ctx.violation("compile:%s" % grp, {"broken": "corr:C16/compile:%s (this group of the impl driver no longer compiles against the tree; its cases are not run)" % grp,
                                             "compiler": msg, "log": log[-3000:]}, found_input=False)
     ctx.coverage["groups_not_compiling"] = sorted(failed)
+    ctx.coverage["object_cache_hits"] = len(nhit)
+    # keep the cache small: drop objects not used for a week
+    now = time.time()
+    for f in os.listdir(cache):
+        fp = os.path.join(cache, f)
+        try:
+            if now - os.path.getmtime(fp) > 7 * 86400: os.remove(fp)
+        except OSError:
+            pass
     return mixed, outs[0], (outs[1] if san else None), out
 
 
